@@ -11,7 +11,7 @@ AREA_V = T.rec(f"{SAP}:Area", a=T.int(0, 65535), b=T.int(0, 65535), angle=T.int(
 contract(f"{RT}:Router.gn_geometric_function_f", props=["C07", "C04", "C01"],
          shapes={"self": ROUTER, "area_type": AREA_T, "area": AREA_V, "lat": T.int(-2 ** 31, 2 ** 31 - 1),
                  "lon": T.int(-2 ** 31, 2 ** 31 - 1)},
-         ensures={"en_302_931_unrotated": "implies(area.angle == 0, result == F_area(shape_of(area_type), area.a, area.b, area.angle, area.latitude, area.longitude, lat, lon))",
+         ensures={"en_302_931_including_azimuth_rotation": "result == F_area(shape_of(area_type), area.a, area.b, area.angle, area.latitude, area.longitude, lat, lon)",
                   "zero_sized_is_outside": "implies(area.a == 0 or (area.b == 0 and shape_of(area_type) != 0), result < 0)"},
          canary={"always_inside": "result >= 0"}, **S)
 contract(f"{RT}:Router._compute_area_size_m2", props=["C07"], shapes={"area_type": AREA_T, "area": AREA_V},
